@@ -1,0 +1,8 @@
+//go:build !verif
+
+// Package verifhook provides yield points for the verification harness.
+// Without the `verif` build tag every function here is an empty, inlinable stub.
+package verifhook
+
+// Yield does nothing unless the `verif` build tag is set.
+func Yield(point string) {}
